@@ -214,6 +214,19 @@ ROUND2 = {
     'C20': "the monthly (year, month) candidate is this or next month with an exact year carry for all 12 months; a due event's node is queued on every path; every timer is armed with a wrapper constructed for it; the boot token tested and stored identifies the event (not just the algorithm name); every constructed moment is aware by construction; an unknowable event skips only itself",
 }
 
+# rules of sibling properties that are necessary conditions of this property as well and are evaluated under it too
+# (DESIGN 8.9); the rule keeps its home id
+BORROWED = {
+    'C01': 'R-C03-2 (a batch entry that keeps its do set is handed over again)',
+    'C02': 'R-C03-2 (a released job never falls out of the batch), R-C09-4 (Node.trim keeps every consumer edge), R-C06-3 (load fallback)',
+    'C03': 'R-C01-2 (task messages are made from the released targets), R-C11-1/2/4/5 (only registered, connected, idle hands are paired, one task each), R-C02-1/2 (a new-value report queues every consumer)',
+    'C04': 'R-C03-4/5 (busy entries are retired, a cloud job is hired or handed back), R-C12-3/4 (poller slots are released)',
+    'C05': 'R-C18-10 (the chronicle refuses an entry only for missing keys)',
+    'C06': 'R-C07-5 (no stored file is removed behind the catalogue), R-C08-1 (ids are allocated once)',
+    'C11': 'R-C03-2/5 (unplaced work stays queued), R-C08-2 (the next run id exceeds every stored one)',
+    'C16': 'R-C20-6 (what _delay dereferences rule_10 demands), R-C09-1/4 (the graph is built from the declarations)',
+}
+
 # properties whose module is finished, reviewed and clean on the tree
 READY = sorted(TABLE)
 CLAIMED = sorted(k for k in READY if k in TABLE and os.path.exists(os.path.join(HERE, 'sa', 'rules', k.lower() + '.py')))
@@ -230,6 +243,8 @@ def main():
         tech, dec, nd = TABLE[pid]
         if pid in ROUND2:
             dec = dec + '; ' + ROUND2[pid]
+        if pid in BORROWED:
+            dec = dec + '; also evaluated here, borrowed from the sibling property that owns the mechanism: ' + BORROWED[pid]
         checks.append(
             {
                 'property_id': pid,
@@ -267,7 +282,8 @@ def main():
                 'serves_properties': CLAIMED,
                 'kind_free_text': 'repository-specific static analysis (stdlib ast only): resolved symbols, call graph with deferred edges, '
                 'syntax-directed disjunctive abstract interpreter (typestate / must-call / dominance), guard truth tables, finite-abstraction '
-                'evaluators; thorough tier re-validates each rule on in-memory breaking/benign variants of the current tree',
+                'evaluators; the program is first put into a behaviour-preserving normal form (new helpers dissolved into their callers, single-use '
+                'temporaries, positional calls, oriented comparisons); thorough tier re-validates each rule on in-memory breaking/benign variants of the current tree',
             }
         ],
         'checks': checks,
